@@ -169,6 +169,27 @@ def slot_document(slot: str, text: str) -> tuple[dict, dict]:
     elif slot == "enum.value":
         schema["properties"]["e"]["enum"] = ["one", text]
         runtime = "enum"
+    elif slot == "enum.value.nullable":          # null listed among the values: the schema is rebuilt as a union and re-enters the enum builder
+        schema["properties"]["e"] = {"enum": ["one", text, None]}
+        runtime = "enum"
+    elif slot == "enum.value.typelist":
+        schema["properties"]["e"] = {"type": ["string", "null"], "enum": ["one", text, None]}
+        runtime = "enum"
+    elif slot == "enum.value.items":
+        schema["properties"]["e"] = {"type": "array", "items": {"type": "string", "enum": ["one", text]}}
+        runtime = "enum"
+    elif slot == "enum.value.component":
+        schemas["Kind"] = {"type": "string", "enum": ["one", text]}
+        schema["properties"]["e"] = {"$ref": "#/components/schemas/Kind"}
+        runtime = "enum"
+    elif slot == "enum.value.param":
+        op["parameters"][0]["schema"] = {"type": "string", "enum": ["one", text]}
+        runtime = "enum"
+    elif slot == "enum.default":
+        schema["properties"]["e"] = {"type": "string", "enum": ["one", text], "default": text}
+        runtime = "enum"
+    elif slot in ("pathitem.summary", "pathitem.description"):
+        pass
     elif slot == "const.value":
         schema["properties"]["c"]["const"] = text
         runtime = "const"
@@ -183,6 +204,9 @@ def slot_document(slot: str, text: str) -> tuple[dict, dict]:
     if schema.get("title") is None:
         schema.pop("title", None)
     doc = {"openapi": "3.1.0", "info": info, "paths": {path: {"post": op}}, "components": {"schemas": schemas}}
+    if slot in ("pathitem.summary", "pathitem.description"):        # the Path Item's text applies to operations that declare none
+        op.pop("summary"), op.pop("description")
+        doc["paths"][path][slot.split(".")[1]] = text
     if slot == "server.url":
         doc["servers"] = [{"url": text, "description": text}]
     if slot == "security.name":
@@ -191,9 +215,94 @@ def slot_document(slot: str, text: str) -> tuple[dict, dict]:
     return doc, {"runtime": runtime}
 
 
+def maximal_document() -> dict:
+    """Every optional string-valued field the generator's schema knows, populated (for the generic slot census)."""
+    S = {"type": "string"}
+    return {
+        "openapi": "3.1.0",
+        "info": {"title": "Max", "version": "2.0", "description": "info d", "termsOfService": "https://t", "contact": {"name": "c", "url": "https://c", "email": "e@x"},
+                 "license": {"name": "l", "url": "https://l"}, "summary": "info s"},
+        "servers": [{"url": "https://srv/{v}", "description": "srv d", "variables": {"v": {"default": "v1", "description": "var d", "enum": ["v1"]}}}],
+        "tags": [{"name": "things", "description": "tag d", "externalDocs": {"url": "https://e", "description": "ext d"}}],
+        "externalDocs": {"url": "https://docs", "description": "docs d"},
+        "security": [{"bearer": []}],
+        "paths": {"/things/{id}": {
+            "summary": "pi summary", "description": "pi description",
+            "parameters": [{"name": "trace", "in": "header", "description": "pi param", "schema": S, "example": "pex"}],
+            "post": {"operationId": "maxOp", "tags": ["things"], "externalDocs": {"url": "https://o", "description": "op ext"}, "deprecated": False,
+                     "parameters": [{"name": "id", "in": "path", "required": True, "schema": S, "description": "id d"},
+                                    {"name": "q", "in": "query", "description": "q d", "schema": {"type": "string", "default": "qd", "example": "qex", "title": "QT", "pattern": "^a"}, "example": "pe",
+                                     "examples": {"one": {"summary": "ex s", "description": "ex d", "value": "exv"}}},
+                                    {"$ref": "#/components/parameters/Shared"}],
+                     "requestBody": {"description": "body d", "content": {"application/json": {"schema": {"$ref": "#/components/schemas/Thing"}, "example": {"a": "bex"},
+                                                                                                "examples": {"b1": {"summary": "s", "value": {"a": "x"}}}}}},
+                     "responses": {"200": {"description": "ok d", "headers": {"X-Rate": {"description": "hdr d", "schema": S}},
+                                           "content": {"application/json": {"schema": {"$ref": "#/components/schemas/Thing"}}},
+                                           "links": {"next": {"operationId": "maxOp", "description": "link d", "parameters": {"id": "$response.body#/id"}}}},
+                                   "404": {"$ref": "#/components/responses/NotFound"}},
+                     "callbacks": {"onEvent": {"{$request.body#/cb}": {"post": {"responses": {"200": {"description": "cb d"}}}}}},
+                     "security": [{"bearer": []}], "servers": [{"url": "https://opsrv", "description": "op srv"}]}}},
+        "components": {
+            "schemas": {"Thing": {"type": "object", "title": "Thing title", "description": "thing d", "required": ["a"], "example": {"a": "tex"},
+                                  "externalDocs": {"url": "https://s", "description": "schema ext"}, "discriminator": {"propertyName": "a"},
+                                  "xml": {"name": "xn", "namespace": "https://ns", "prefix": "px"},
+                                  "properties": {"a": {"type": "string", "description": "a d", "default": "ad", "example": "aex", "title": "A title", "format": "custom-format", "pattern": "^x"},
+                                                 "e": {"type": "string", "enum": ["one", "two"], "description": "e d", "default": "one"},
+                                                 "en": {"type": "string", "enum": ["n1", "n2", None], "description": "en d"},
+                                                 "c": {"const": "cv", "description": "c d"},
+                                                 "u": {"oneOf": [{"type": "string", "title": "U1"}, {"type": "integer"}], "description": "u d", "default": "ud"},
+                                                 "l": {"type": "array", "items": {"type": "string", "enum": ["i1", "i2"]}, "description": "l d"},
+                                                 "nested": {"type": "object", "title": "Nested title", "description": "nested d", "properties": {"deep": {"type": "string", "description": "deep d", "default": "dd"}}},
+                                                 "when": {"type": "string", "format": "date", "default": "2020-01-02", "description": "when d"}},
+                                  "additionalProperties": {"type": "string", "description": "ap d"}},
+                        "Lit": {"type": "string", "enum": ["la", "lb"], "description": "lit d", "title": "Lit title"}},
+            "parameters": {"Shared": {"name": "shared", "in": "cookie", "description": "shared d", "schema": S}},
+            "responses": {"NotFound": {"description": "nf d", "content": {"text/plain": {"schema": S}}}},
+            "requestBodies": {"RB": {"description": "rb d", "content": {"application/json": {"schema": S}}}},
+            "headers": {"H": {"description": "ch d", "schema": S}},
+            "examples": {"EX": {"summary": "cex s", "description": "cex d", "value": "cexv", "externalValue": "https://ev"}},
+            "links": {"L": {"operationId": "maxOp", "description": "cl d"}},
+            "securitySchemes": {"bearer": {"type": "http", "scheme": "bearer", "bearerFormat": "JWT", "description": "sec d"}}}}
+
+
+def string_slots(doc, path=()):
+    """JSON pointers of every string value and of every document-chosen map key."""
+    KEYED = {"properties", "schemas", "parameters", "responses", "requestBodies", "headers", "examples", "links", "securitySchemes", "content", "paths", "callbacks", "variables"}
+    if isinstance(doc, dict):
+        for k, v in doc.items():
+            if path and path[-1] in KEYED and isinstance(k, str):
+                yield ("key",) + path + (k,)
+            if isinstance(v, str):
+                yield ("val",) + path + (k,)
+            else:
+                yield from string_slots(v, path + (k,))
+    elif isinstance(doc, list):
+        for i, v in enumerate(doc):
+            if isinstance(v, str):
+                yield ("val",) + path + (i,)
+            else:
+                yield from string_slots(v, path + (i,))
+
+
+def substitute(doc, slot, text):
+    import copy
+    d = copy.deepcopy(doc)
+    kind, *path = slot
+    cur = d
+    for k in path[:-1]:
+        cur = cur[k]
+    last = path[-1]
+    if kind == "val":
+        cur[last] = text
+    else:
+        cur[text] = cur.pop(last)
+    return d
+
+
 SLOTS = ["info.title", "info.version", "info.description", "tag", "operationId", "op.summary", "op.description", "param.description", "param.name.query",
          "param.name.header", "param.name.cookie", "path.literal", "media.type.request", "response.description", "schema.title", "schema.description", "schema.name",
-         "property.name", "property.description", "property.example", "enum.value", "const.value", "default.string", "param.default", "server.url", "security.name"]
+         "property.name", "property.description", "property.example", "enum.value", "enum.value.nullable", "enum.value.typelist", "enum.value.items",
+         "enum.value.component", "enum.value.param", "enum.default", "pathitem.summary", "pathitem.description", "const.value", "default.string", "param.default", "server.url", "security.name"]
 
 
 def payloads(cex: dict, quick: bool, rnd) -> list[tuple[str, str]]:
@@ -319,6 +428,24 @@ def run(rep) -> None:
         for (slot, sig, text, info, out, m), g in zip(meta, results):
             rep.count(1, (slot, sig))
             judge_tree(rep, slot, sig, text, info, out, g, m)
+        # generic census: EVERY string value and document-chosen key of a maximal document (safety only), so that a new interpolation of a
+        # field that is ignored today is found without naming it
+        mx = maximal_document()
+        gslots = sorted(set(string_slots(mx)), key=str)
+        core = [p for p in pl if p[0] in ("DQ+DQ+DQ", "BS+DQ", "X+BS", "NL", "composite-fstring", "composite-docstring", "DQ")]
+        if not quick:
+            core = core + rnd.sample([p for p in pl if p not in core], 10)
+        gjobs, gmeta = [], []
+        for gi, sl in enumerate(gslots):
+            for pi, (sig, text) in enumerate(core):
+                out = d / f"x{len(gjobs):05d}"
+                gjobs.append((substitute(mx, sl, text), str(out), {"meta": flav[(gi + pi) % 4], "docstrings_on_attributes": pi % 2 == 1}))
+                gmeta.append(("ptr:" + "/".join(map(str, sl)), sig, text, out, flav[(gi + pi) % 4]))
+        gres = treegen.generate_many(gjobs)
+        for (slot, sig, text, out, m), g in zip(gmeta, gres):
+            rep.count(1, (slot, sig))
+            judge_tree(rep, slot, sig, text, {"runtime": None}, out, g, m)
+        rep.extra["generic_slots"] = len(gslots)
         # several slots at once
         for k in range(6 if quick else 40):
             doc, _ = slot_document("info.title", "T")
